@@ -153,9 +153,12 @@ theorem mul_isDec (a b : Mag α) : (Mag.mul a b).isDec = (a.isDec || b.isDec) :=
 
 theorem div_isDec {a b r : Mag α} (h : Mag.div a b = .ok r) : r.isDec = (a.isDec || b.isDec) := by
   unfold Mag.div at h
-  split at h
-  · cases h
-  · split at h
+  cases he : Mag.divErr a b with
+  | some e => rw [he] at h; cases h
+  | none =>
+    rw [he] at h
+    simp only at h
+    split at h
     · next hd => injection h with h; subst h; rw [hd]; rfl
     · next hd =>
       injection h with h; subst h
@@ -164,9 +167,12 @@ theorem div_isDec {a b r : Mag α} (h : Mag.div a b = .ok r) : r.isDec = (a.isDe
 
 theorem powInt_isDec {a r : Mag α} {n : Int} (h : a.powInt n = .ok r) : r.isDec = a.isDec := by
   unfold Mag.powInt at h
-  split at h
-  · cases h
-  · cases a with
+  cases he : Mag.powErr a n with
+  | some e => rw [he] at h; cases h
+  | none =>
+    rw [he] at h
+    simp only at h
+    cases a with
     | int i => simp only at h; split at h <;> (injection h with h; subst h; rfl)
     | flt x => injection h with h; subst h; rfl
     | dec q => injection h with h; subst h; rfl
